@@ -142,7 +142,7 @@ def linalg_call(L, e, d, name, args):
             return None   # matrices, quaternions: not in the table
     cts = [L.cty(t) for t in ats]
     rct = L.cty(rt)
-    hname = 'la_%s_%s' % (mangle(name.replace('operator', 'op_').replace('+', 'add').replace('-', 'sub').replace('*', 'mul').replace('/', 'div').replace('=', 'eq')),
+    hname = 'la_%s_%s' % (mangle(name.replace('operator', 'op_').replace('+', 'add').replace('-', 'sub').replace('*', 'mul').replace('/', 'div').replace('!', 'not').replace('<', 'lt').replace('=', 'eq')),
                           '_'.join(mangle(c) for c in cts))
 
     def comp(i, k):
@@ -181,6 +181,15 @@ def linalg_call(L, e, d, name, args):
         body = 'return a.x * b.y - a.y * b.x;'
     elif name == 'length2' and len(args) == 1:
         body = 'return %s;' % ' + '.join('a.%s * a.%s' % (COMP[k], COMP[k]) for k in range(n))
+    elif name in ('operator==', 'operator!=') and len(args) == 2 and vi[0] and vi[1]:
+        # linalg: compare(a,b) == 0 with compare = first component pair that differs (a.x != b.x ? (a.x,b.x) : ...)
+        eq = ' && '.join('a.%s == b.%s' % (COMP[k], COMP[k]) for k in range(n))
+        body = 'return %s(%s);' % ('' if name == 'operator==' else '!', eq)
+    elif name == 'operator<' and len(args) == 2 and vi[0] and vi[1]:
+        expr = 'a.%s < b.%s' % (COMP[n - 1], COMP[n - 1])
+        for k in range(n - 2, -1, -1):
+            expr = '(a.%s != b.%s ? a.%s < b.%s : %s)' % (COMP[k], COMP[k], COMP[k], COMP[k], expr)
+        body = 'return %s;' % expr
     elif name in ASSIGN_OPS and len(args) == 2 and vi[0]:
         # a op= b, returns reference to a
         op = ASSIGN_OPS[name]
